@@ -1,0 +1,23 @@
+//go:build verif
+
+package keeper
+
+import "strings"
+
+// VerifDumpGlobals dumps the package-level in-memory oracle state (verif build tag only).
+func VerifDumpGlobals() string {
+	var b strings.Builder
+	b.WriteString("== agc\n")
+	b.WriteString(agc.VerifDump())
+	b.WriteString("== agcCheckTx\n")
+	b.WriteString(agcCheckTx.VerifDump())
+	b.WriteString("== cache\n")
+	b.WriteString(cs.VerifDump())
+	b.WriteString("== updatedFeederIDs " + strings.Join(updatedFeederIDs, ",") + "\n")
+	return b.String()
+}
+
+// VerifDumpDeliver dumps only the state used on the consensus connection.
+func VerifDumpDeliver() string {
+	return "== agc\n" + agc.VerifDump() + "== cache\n" + cs.VerifDump()
+}
